@@ -108,7 +108,7 @@ fn ts_to_components(ts: f64) -> Option<DateComponents> {
 
 /// The year arguments 0..=99 of the Date constructor and Date.UTC mean 1900..=1999
 fn full_year(year: f64) -> f64 {
-    let y = year.trunc();
+    let y = math::trunc(year);
     if (0.0..=99.0).contains(&y) {
         1900.0 + y
     } else {
@@ -132,24 +132,24 @@ fn components_to_ts(
     if parts.iter().any(|p| !p.is_finite()) {
         return f64::NAN;
     }
-    let (year, month, day) = (year.trunc(), month.trunc(), day.trunc());
+    let (year, month, day) = (math::trunc(year), math::trunc(month), math::trunc(day));
 
     // Normalize month (0-indexed from JS, can overflow)
-    let norm_year = year + (month / 12.0).floor();
+    let norm_year = year + math::floor(month / 12.0);
     // Years this far out are beyond the time value range whatever the day is
     if norm_year.abs() > 400_000.0 {
         return f64::NAN;
     }
-    let norm_month = month.rem_euclid(12.0) as u32 + 1;
+    let norm_month = math::rem_euclid(month, 12.0) as u32 + 1;
 
     // Calculate days, allowing day overflow
     let base_days = ymd_to_days(norm_year as i32, norm_month, 1);
     let total_days = base_days as f64 + day - 1.0;
 
-    let time_ms = hour.trunc() * MS_PER_HOUR as f64
-        + minute.trunc() * MS_PER_MINUTE as f64
-        + second.trunc() * MS_PER_SECOND as f64
-        + ms.trunc();
+    let time_ms = math::trunc(hour) * MS_PER_HOUR as f64
+        + math::trunc(minute) * MS_PER_MINUTE as f64
+        + math::trunc(second) * MS_PER_SECOND as f64
+        + math::trunc(ms);
 
     time_clip(total_days * MS_PER_DAY as f64 + time_ms)
 }
@@ -159,7 +159,7 @@ fn time_clip(time: f64) -> f64 {
     if !time.is_finite() || time.abs() > 8.64e15 {
         return f64::NAN;
     }
-    time.trunc() + 0.0
+    math::trunc(time) + 0.0
 }
 
 const WEEKDAY_NAMES: [&str; 7] = ["Sun", "Mon", "Tue", "Wed", "Thu", "Fri", "Sat"];
